@@ -71,11 +71,19 @@ class AsyncQueue[Element](AsyncIterator[Element]):
         if self._finish_reason is not None:  # check if is finished
             raise self._finish_reason
 
+        # create a new future to wait for next
+        waiting: Future[Element] = self._loop.create_future()
+        self._waiting = waiting
         try:
-            # create a new future to wait for next
-            self._waiting = self._loop.create_future()
             # wait for the result
-            return await self._waiting
+            return await waiting
+
+        except CancelledError:
+            # put back the element which was already delivered but not received
+            if waiting.done() and not waiting.cancelled() and waiting.exception() is None:
+                self._queue.appendleft(waiting.result())
+
+            raise
 
         finally:
             # cleanup
